@@ -58,6 +58,7 @@ func c10Check(s *C10Session) string {
 				continue
 			}
 			var sigs []string
+			var lastCLI *run.CLIResult
 			for rep := 0; rep < 3; rep++ {
 				args := []string{"-o", "-"}
 				for _, sel := range tr.Sels {
@@ -75,10 +76,30 @@ func c10Check(s *C10Session) string {
 					break
 				}
 				sigs = append(sigs, fmt.Sprintf("exit=%d stdout=%q stderr=%q", res.Exit, res.Stdout, res.Stderr))
+				lastCLI = res
 			}
 			for _, sg := range sigs {
 				if sg != sigs[0] {
 					return fmt.Sprintf("two fresh processes gave different results for triple %d\n %s\n %s\nprogram:\n%s", k, clip(sigs[0]), clip(sg), tr.Src)
+				}
+			}
+			// a fresh process and this (much used) process agree on stdout, the JSON output
+			// and the success/error outcome
+			if len(sigs) > 0 && len(tr.Files) == 1 {
+				f := tr.Files[0]
+				o := run.InProc(string(tr.Src), []run.InFile{{Name: f.Name + ".json", Data: []byte(strings.Join(f.Docs, "\n"))}}, tr.Sels, run.Opts{Budget: implBudget, WantRoot: true})
+				want, wantExit := string(o.Stdout), 1
+				switch {
+				case o.Class == "ok" && o.RootErr == "" && o.RootPanic == "":
+					want, wantExit = string(o.Stdout)+o.RootJSON, 0
+				case o.Class == "ok" && o.RootPanic == "" && o.RootErr != "budget", o.Class == "runtime", o.Class == "syntax", o.Class == "json", o.Class == "other":
+				default:
+					wantExit = -1 // budget, panic: not comparable
+				}
+				if wantExit >= 0 {
+					if got := fmt.Sprintf("exit=%d stdout=%q", lastCLI.Exit, lastCLI.Stdout); got != fmt.Sprintf("exit=%d stdout=%q", wantExit, want) {
+						return fmt.Sprintf("a fresh process and a run inside the long-lived process differ for triple %d\n fresh process: %s (stderr %q)\n in-process:    exit=%d stdout=%q (class %s, %s)\nprogram:\n%s", k, clip(got), clip(string(lastCLI.Stderr)), wantExit, clip(want), o.Class, o.Msg, tr.Src)
+					}
 				}
 			}
 		}
@@ -215,6 +236,25 @@ func c10ProbeObserve(t *rapid.T, recv0, key0 string) C10Triple {
 	return C10Triple{Src: ast.BS(sb.String()), Files: []DFile{{Name: "in", Docs: []string{`{"a":1,"b":[1,2],"name":"nm"}`}}}}
 }
 
+// c10Lazy: one-liners that make the very first use, in a fresh process, of one
+// kind of value or prototype -- nothing else in the program or the input touches
+// that kind before. Sessions containing them always take the fresh-process
+// comparison.
+var c10LazyRecv = []string{`$index`, `$.length()`, `"ab".length()`, `[].length()`, `{}.length()`, `num("3")`, `num("2.5")`, `$key`, `$`, `"aXb"`, `[]`, `{}`, `true`, `null`, `/x/`, `2.5`, `7`, `$index % 2`, `-$index`, `$.pluck("a")`, `"a,b".split(",")`, `json($)`}
+var c10LazyUse = []string{`.floor()`, `.ceil()`, `.round()`, `.length()`, `.upper()`, `.lower()`, `.split("X")`, `.sort()`, `.push(1)`, `.pop()`, `.popfirst()`, `.contains("a")`, `.pluck("a")`, ``, ` + 1`, ` is number`, `.floor`, `.x`, `[0]`}
+
+func c10Lazy(t *rapid.T) C10Triple {
+	var sb strings.Builder
+	sb.WriteString(rapid.SampledFrom([]string{"{", "BEGIN {", "END {", "$ is array {"}).Draw(t, "lazyrule"))
+	n := rapid.IntRange(1, 3).Draw(t, "nlazy")
+	for k := 0; k < n; k++ {
+		fmt.Fprintf(&sb, " print (%s)%s\n", rapid.SampledFrom(c10LazyRecv).Draw(t, "lrecv"), rapid.SampledFrom(c10LazyUse).Draw(t, "luse"))
+	}
+	sb.WriteString("}")
+	doc := rapid.SampledFrom([]string{`["a","bc"]`, `[1,2]`, `{"a":"v"}`, `[]`, `"s"`, `[{"a":"x"}]`, `[[],{}]`, `null`, `[true]`}).Draw(t, "lazydoc")
+	return C10Triple{Src: ast.BS(sb.String()), Files: []DFile{{Name: "in", Docs: []string{doc}}}}
+}
+
 func c10FromCase(c *DCase) C10Triple {
 	return C10Triple{Src: ast.BS(c.Source()), Sels: c.SelSources(), Files: c.Files}
 }
@@ -225,7 +265,16 @@ func genC10(t *rapid.T) (*C10Session, []string) {
 	var labels []string
 	intruders := map[int]bool{}
 	for k := 0; k < n; k++ {
-		switch rapid.IntRange(0, 9).Draw(t, "family") {
+		switch rapid.IntRange(0, 12).Draw(t, "family") {
+		case 10:
+			s.Triples = append(s.Triples, c10Lazy(t))
+			labels = append(labels, "first-use-in-process")
+		case 11, 12:
+			// printf calls that succeed or fail part-way, next to one that always works
+			c, _ := genC18(t)
+			s.Triples = append(s.Triples, c10FromCase(c), C10Triple{Src: ast.BS(`BEGIN { printf("%s=%f|", "n", 3); printf("%v\n", [1]) }`)})
+			labels = append(labels, "printf")
+			k++
 		case 0, 1, 2:
 			s.Triples = append(s.Triples, c10Anchor(t))
 			labels = append(labels, "anchor-object-order")
@@ -291,7 +340,7 @@ func seq(n int) []int {
 
 func TestC10(t *testing.T) {
 	rec := start(t, "C10", "exploration",
-		"sessions: 2-4 (program, selectors, input) triples executed in one process, each 8 times, interleaved in a random order (A B A C B A ...). Triples come from: an anchor family (print, for-in and printf %v over objects with 2-12 keys taken from the document, a literal, auto-creation and pluck, plus method lookups of every prototype); an intruder family (assignments to method names and builtins, nested method calls, stores into string indices and members of scalars, generated 'store into the result of any read' programs paired with observer programs performing the same reads) that tries to leave state behind in the process; and the C02 / C07 / C09 / C15 / C11 generators (including runs that end in every error kind). Oracle: every execution of a triple gives byte-identical stdout, GetRootJson text and error (class, message, line, column). A sample of triples is also run 3 times through the binary in fresh processes. Non-trivial: the session contains a triple printing or iterating an object with >= 3 keys, or an intruder next to programs using the same prototype. distinct = distinct session.")
+		"sessions: 2-4 (program, selectors, input) triples executed in one process, each 8 times, interleaved in a random order (A B A C B A ...). Triples come from: an anchor family (print, for-in and printf %v over objects with 2-12 keys taken from the document, a literal, auto-creation and pluck, plus method lookups of every prototype); an intruder family (assignments to method names and builtins, nested method calls, stores into string indices and members of scalars, generated 'store into the result of any read' programs paired with observer programs performing the same reads) that tries to leave state behind in the process; and the C02 / C07 / C09 / C15 / C11 generators (including runs that end in every error kind). Oracle: every execution of a triple gives byte-identical stdout, GetRootJson text and error (class, message, line, column). printf programs that succeed or fail part-way (C18 generator) next to one that always works; one-liners making the first use in a process of one kind of value or prototype method (int-origin numbers such as $index or length(), strings, arrays, objects, regexes). A sample of sessions (and every session with a first-use one-liner) is also run through the binary: three fresh processes must agree with each other and with the run inside the long-lived test process (stdout followed by the -o - JSON text, exit status). Non-trivial: the session contains a triple printing or iterating an object with >= 3 keys, or an intruder next to programs using the same prototype. distinct = distinct session.")
 	defer rec.Finish()
 	rec.Assume("nondeterminism is detected probabilistically: a randomised order of >= 3 keys survives 8 executions with probability <= 3^-7 per case")
 	rec.Replayer("session", func(raw json.RawMessage) error {
@@ -312,6 +361,11 @@ func TestC10(t *testing.T) {
 	check(rec, "session-random", scale(2500, 350000), func(rt *rapid.T) {
 		s, labels := genC10(rt)
 		s.CLI = rapid.IntRange(0, 39).Draw(rt, "cli") == 0
+		for _, l := range labels {
+			if l == "first-use-in-process" {
+				s.CLI = true
+			}
+		}
 		msg := c10Check(s)
 		nt := false
 		for _, l := range labels {
